@@ -1,8 +1,190 @@
-(* C14 — Writers never hide a sink failure and tolerate short writes (skeleton). *)
-From Coq Require Import List NArith.
-From NV Require Import Sinks.Sink Sinks.SinkProofs.
+(* C14 — Writers never hide a sink failure and tolerate short writes.
+
+   Property theorems only; each is closed by [exact] of a lemma proved in theories/Sinks and
+   followed by Print Assumptions.  Model: NV.Sinks.Sink (a sink = accepted bytes + a fault
+   script with one event per inner write()/flush() call; std's write_all; a generic layered
+   writer = `?`-chains of write_all/flush calls grouped into operations, the caller stopping at
+   the first Err; noodles-bgzf's io::Writer with frames as opaque byte lists).  All theorems
+   quantify over ALL fault scripts, buffers and operation sequences. *)
+From Coq Require Import List NArith Arith.
+From NV Require Import Sinks.Sink Sinks.SinkProofs Sinks.LayerProofs Sinks.BgzfProofs.
 Import ListNotations.
 
-Theorem c14_write_all_good : forall buf, good buf (write_all buf).
-Proof. exact write_all_good. Qed.
-Print Assumptions c14_write_all_good.
+(* ----------------------------------------------------------------------------------------- *)
+(* std::io::Write::write_all over a faulty sink *)
+
+(* short writes and Interrupted, in any pattern, change nothing: exactly the buffer is appended *)
+Theorem c14_write_all_short_invariant :
+  forall buf s, no_fail (sscript s) ->
+    exists s', write_all buf s = (Ok, s') /\ sbytes s' = sbytes s ++ buf.
+Proof. exact write_all_short_invariant. Qed.
+Print Assumptions c14_write_all_short_invariant.
+
+(* if the call consumed a Fail e event (c = the script events it consumed), it returns Err e,
+   and what it appended is a prefix of the buffer *)
+Theorem c14_write_all_failure_reported :
+  forall buf s r s' c e,
+    write_all buf s = (r, s') -> sscript s = c ++ sscript s' -> In (Fail e) c -> e <> e_interrupted ->
+    r = Err e /\ exists p, sbytes s' = sbytes s ++ p /\ prefix p buf.
+Proof. exact write_all_failure_reported. Qed.
+Print Assumptions c14_write_all_failure_reported.
+
+(* conversely every Err comes from the script (never WriteZero of its own, never Interrupted) *)
+Theorem c14_write_all_err_from_script :
+  forall buf s e s', write_all buf s = (Err e, s') ->
+    e <> e_interrupted /\ exists c, sscript s = c ++ Fail e :: sscript s' /\ benign c.
+Proof. exact write_all_err_from_script. Qed.
+Print Assumptions c14_write_all_err_from_script.
+
+(* ----------------------------------------------------------------------------------------- *)
+(* generic layered writer: operations = `?`-chains of write_all / flush on the sink *)
+
+Theorem c14_all_ok_complete :
+  forall ops s rs s',
+    lw_run ops s = (rs, s') -> Forall (fun r => r = Ok) rs ->
+    length rs = length ops /\ sbytes s' = sbytes s ++ lw_out ops.
+Proof. exact lw_all_ok_complete. Qed.
+Print Assumptions c14_all_ok_complete.
+
+Theorem c14_failure_reported :
+  forall ops s rs s' c e,
+    lw_run ops s = (rs, s') -> sscript s = c ++ sscript s' -> In (Fail e) c -> e <> e_interrupted ->
+    In (Err e) rs.
+Proof. exact lw_failure_reported. Qed.
+Print Assumptions c14_failure_reported.
+
+Theorem c14_short_write_invariant :
+  forall ops s rs s',
+    lw_run ops s = (rs, s') -> no_fail (sscript s) ->
+    rs = repeat Ok (length ops) /\ sbytes s' = sbytes s ++ lw_out ops.
+Proof. exact lw_short_write_invariant. Qed.
+Print Assumptions c14_short_write_invariant.
+
+(* whatever the script, the sink holds a prefix of the fault-free output (nothing else is ever
+   written, nothing is written twice) *)
+Theorem c14_sink_is_prefix :
+  forall ops s rs s',
+    lw_run ops s = (rs, s') -> exists p, sbytes s' = sbytes s ++ p /\ prefix p (lw_out ops).
+Proof. exact lw_prefix. Qed.
+Print Assumptions c14_sink_is_prefix.
+
+(* ----------------------------------------------------------------------------------------- *)
+(* bgzf::io::Writer (maxbuf = MAX_BUF_SIZE > 0; frames = whatever the compressor produces) *)
+
+(* [bw_ideal_out] / [bw_ideal_state] are the output and state of the same operations on the sink
+   that never fails *)
+Theorem c14_bgzf_ideal :
+  forall maxbuf frames, 0 < maxbuf -> forall ops,
+    let '(rs, st', s') := bw_run_ops maxbuf frames ops ideal_sink in
+    rs = repeat Ok (length ops) /\ st' = bw_ideal_state maxbuf frames ops /\
+    sbytes s' = bw_ideal_out maxbuf frames ops.
+Proof. exact bw_ideal. Qed.
+Print Assumptions c14_bgzf_ideal.
+
+Theorem c14_bgzf_all_ok_complete :
+  forall maxbuf frames, 0 < maxbuf -> forall ops s rs st' s',
+    bw_run_ops maxbuf frames ops s = (rs, st', s') -> Forall (fun r => r = Ok) rs ->
+    length rs = length ops /\ st' = bw_ideal_state maxbuf frames ops /\
+    sbytes s' = sbytes s ++ bw_ideal_out maxbuf frames ops.
+Proof. exact bw_all_ok_complete. Qed.
+Print Assumptions c14_bgzf_all_ok_complete.
+
+Theorem c14_bgzf_failure_reported :
+  forall maxbuf frames, 0 < maxbuf -> forall ops s rs st' s' c e,
+    bw_run_ops maxbuf frames ops s = (rs, st', s') ->
+    sscript s = c ++ sscript s' -> In (Fail e) c -> e <> e_interrupted ->
+    In (Err e) rs /\ exists j, rs = repeat Ok j ++ [Err e].
+Proof. exact bw_failure_reported. Qed.
+Print Assumptions c14_bgzf_failure_reported.
+
+Theorem c14_bgzf_short_write_invariant :
+  forall maxbuf frames, 0 < maxbuf -> forall ops s rs st' s',
+    bw_run_ops maxbuf frames ops s = (rs, st', s') -> no_fail (sscript s) ->
+    rs = repeat Ok (length ops) /\ st' = bw_ideal_state maxbuf frames ops /\
+    sbytes s' = sbytes s ++ bw_ideal_out maxbuf frames ops.
+Proof. exact bw_short_write_invariant. Qed.
+Print Assumptions c14_bgzf_short_write_invariant.
+
+Theorem c14_bgzf_sink_is_prefix :
+  forall maxbuf frames, 0 < maxbuf -> forall ops s rs st' s',
+    bw_run_ops maxbuf frames ops s = (rs, st', s') ->
+    exists p, sbytes s' = sbytes s ++ p /\ prefix p (bw_ideal_out maxbuf frames ops).
+Proof. exact bw_prefix. Qed.
+Print Assumptions c14_bgzf_sink_is_prefix.
+
+(* dropping a writer that still owns its sink appends the staged block (if any) and the EOF
+   block, whatever short-write / Interrupted pattern the sink follows *)
+Theorem c14_drop_emits :
+  forall frames st s, no_fail (sscript s) ->
+    let (st', s') := bw_drop frames st s in
+    sbytes s' = sbytes s ++ drop_out frames st /\ no_fail (sscript s').
+Proof. exact bw_drop_emits. Qed.
+Print Assumptions c14_drop_emits.
+
+(* the whole life (operations, then Drop) is byte-identical to the life on the ideal sink *)
+Theorem c14_bgzf_life_short_write_invariant :
+  forall maxbuf frames, 0 < maxbuf -> forall ops s rs s',
+    bw_run maxbuf frames ops s = (rs, s') -> no_fail (sscript s) ->
+    rs = repeat Ok (length ops) /\
+    sbytes s' = sbytes s ++ sbytes (snd (bw_run maxbuf frames ops ideal_sink)).
+Proof. exact bw_life_short_write_invariant. Qed.
+Print Assumptions c14_bgzf_life_short_write_invariant.
+
+(* "whenever all calls including finish return Ok the destination holds the complete file",
+   for the whole life including Drop.  Full statement: *)
+Definition c14_bgzf_life_complete_full_statement : Prop :=
+  forall maxbuf frames, 0 < maxbuf -> forall ops s rs s',
+    bw_run maxbuf frames ops s = (rs, s') -> Forall (fun r => r = Ok) rs ->
+    In BTryFinish ops \/ In BFinish ops ->
+    exists p, sbytes s' = sbytes s ++ bw_ideal_out maxbuf frames ops ++ p /\
+              (p = [] \/ p = BGZF_EOF).
+(* It holds when the life ends with the consuming finish(self) ... *)
+Theorem c14_bgzf_finish_life_complete :
+  forall maxbuf frames, 0 < maxbuf -> forall ops s rs s',
+    bw_run maxbuf frames (ops ++ [BFinish]) s = (rs, s') -> Forall (fun r => r = Ok) rs ->
+    sbytes s' = sbytes s ++ bw_ideal_out maxbuf frames (ops ++ [BFinish]).
+Proof. exact bw_finish_life_complete. Qed.
+Print Assumptions c14_bgzf_finish_life_complete.
+(* ... and is refuted for `try_finish(); drop`: Drop calls try_finish again and the second EOF
+   block can be cut short by a failure nobody can observe (known finding
+   bgzf-second-eof-in-drop).  Witness: one 3-byte write, try_finish, drop; the sink accepts the
+   frame and the EOF block, then 5 bytes of the second EOF block, then fails. *)
+Definition wit_frame : list byte := map N.of_nat (seq 1 30).
+Definition wit_script : list fault := repeat Full 15 ++ [Short 5; Fail 2%N].
+Lemma c14_bgzf_life_complete_refuted : ~ c14_bgzf_life_complete_full_statement.
+Proof.
+  intros H.
+  specialize (H 100 [wit_frame] (Nat.lt_0_succ _) [BWriteAll 3; BTryFinish]
+                (mkSink [] wit_script 0)).
+  remember (bw_run 100 [wit_frame] [BWriteAll 3; BTryFinish] (mkSink [] wit_script 0)) as r eqn:Er.
+  vm_compute in Er. subst r.
+  specialize (H _ _ eq_refl).
+  destruct H as [p [Hb Hp]].
+  - repeat constructor.
+  - left. right. left. reflexivity.
+  - vm_compute in Hb. destruct Hp as [Hp|Hp]; subst p; discriminate Hb.
+Qed.
+Print Assumptions c14_bgzf_life_complete_refuted.
+
+(* ----------------------------------------------------------------------------------------- *)
+(* non-vacuity *)
+
+(* a script whose failure is reached: one short write, one Interrupted, then Fail *)
+Example c14_example_failure :
+  write_all [1; 2; 3]%N (mkSink [] [Short 1; Interrupted; Fail 5%N] 0)
+  = (Err 5%N, mkSink [1]%N [] 3).
+Proof. vm_compute. reflexivity. Qed.
+
+(* the same buffer through short writes and Interrupted only *)
+Example c14_example_short :
+  write_all [1; 2; 3]%N (mkSink [] [Short 1; Interrupted; Short 1; Interrupted] 0)
+  = (Ok, mkSink [1; 2; 3]%N [] 5).
+Proof. vm_compute. reflexivity. Qed.
+
+(* a failure in the 7th write_all of a frame is reported by the flush that emits it, and by
+   nothing before; dropping an unfinished writer on a healthy sink emits frame + EOF *)
+Example c14_example_bgzf :
+  fst (bw_run 100 [wit_frame] [BWriteAll 3; BFlush] (mkSink [] (repeat Full 6 ++ [Fail 3%N]) 0))
+    = [Ok; Err 3%N]
+  /\ sbytes (snd (bw_run 100 [wit_frame] [BWriteAll 3] ideal_sink)) = wit_frame ++ BGZF_EOF.
+Proof. vm_compute. split; reflexivity. Qed.
